@@ -104,3 +104,15 @@ def process(argv, stdin, status, stdout):
     got = p.stdout.splitlines()
     ok = p.returncode == status and (not stdout or got == stdout)
     return ok, f"python -m celpy {argv}: exit {p.returncode} (expected {status}), stdout {got} (expected {stdout})"
+
+
+def long_stream(argv, bad, good, n, last, status):
+    """NDJSON: n documents whose evaluation fails, then one that succeeds: the last output line and the status are those of the last
+    document evaluated on its own stream (the k-th line depends only on the k-th document, however long the stream)"""
+    env = dict(os.environ)
+    env["PYTHONPATH"] = os.path.join(os.environ.get("VERIF_REPO", "/repo"), "src")
+    stdin = (bad + "\n") * n + good + "\n"
+    p = subprocess.run([sys.executable, "-m", "celpy"] + argv, input=stdin, capture_output=True, text=True, env=env, timeout=120)
+    got = p.stdout.splitlines()
+    ok = len(got) == n + 1 and got[-1] == last and p.returncode == status
+    return ok, f"python -m celpy {argv} on {n} failing documents and then {good}: {len(got)} output lines, last {got[-1:]!r} (expected {last!r}), exit {p.returncode} (expected {status})"
